@@ -642,6 +642,13 @@ impl<'a, T> ContextBase<'a, T> {
             Some(value) => (value.pos, self.resolve_input_value(value)?),
             None => (Pos::default(), None),
         };
+        // An argument bound to a variable that was not provided (and has no default of its
+        // own) counts as omitted, so the argument's default value applies.
+        if value.is_none()
+            && let Some(default) = default
+        {
+            return Ok((pos, default()));
+        }
         InputType::parse(value)
             .map(|value| (pos, value))
             .map_err(|e| e.into_server_error(pos))
